@@ -2,6 +2,7 @@
 import math
 import operator
 
+import itertools
 from .. import probe
 from ..models import conv, dims
 from ..workloads import programs, table
@@ -302,6 +303,61 @@ def integer_containers(ctx, T, db, r, n_cases):
                 ctx.violation("int-container:value:%s:%s/%s" % (opn, ka, kb), dict(case, got=got, scalars=[s.GetValue() for s in ref], result_unit=res.GetUnit()), replay=case)
 
 
+def unusual_containers(ctx):
+    """Containers that are *kinds of* lists, tuples and arrays: a named tuple, an application's own list class, an ndarray of
+    dtype object holding Python floats. Array (op) Array and the re-expression in another unit give, element by element, what
+    the Scalars give - whatever the pairing of container kinds."""
+    import collections
+
+    import numpy as np
+    from barril.units import Array, Scalar
+
+    Point = collections.namedtuple("Point", "x y z")
+
+    class Column(list):
+        pass
+
+    conts = [("named tuple", lambda z: Point(*z)), ("list subclass", lambda z: Column(z)), ("object ndarray", lambda z: np.array(z, dtype=object)), ("list", list), ("nd", lambda z: np.array(z, dtype=float))]
+    av, bv = [1.5, -2.0, 40.0], [3.0, 0.5, -7.0]
+    ops = [("+", lambda p, q: p + q), ("-", lambda p, q: p - q), ("*", lambda p, q: p * q), ("/", lambda p, q: p / q), ("//", lambda p, q: p // q)]
+    n = 0
+    for u, v in (("m", "cm"), ("km", "m"), ("degC", "K"), ("m", "m")):
+        for (ka, mka), (kb, mkb) in itertools.product(conts, conts):
+            if ka in ("list", "nd") and kb in ("list", "nd"):
+                continue  # (the ordinary pairings are the business of the rest of this check)
+            for sym, fn in ops:
+                if "degC" in (u, v) and sym in ("*", "/", "//"):
+                    continue
+                ctx.ev()
+                n += 1
+                case = {"containers": [ka, kb], "units": [u, v], "op": sym}
+                ctx.nt(("unusual containers", ka, kb, u, v, sym))
+                try:
+                    res = fn(Array(mka(av), u), Array(mkb(bv), v))
+                    got = [float(t) for t in res.GetValues()]
+                    want = [float(fn(Scalar(x, u), Scalar(y, v)).GetValue()) for x, y in zip(av, bv)]
+                    wu = fn(Scalar(av[0], u), Scalar(bv[0], v)).GetUnit()
+                except Exception as e:
+                    ctx.violation("unusual-container:raised:%s" % type(e).__name__, dict(case, error=str(e)[:160]))
+                    continue
+                if len(got) != 3 or res.GetUnit() != wu or not all(abs(g - w) <= 1e-12 * (abs(w) + abs(g)) + 1e-300 for g, w in zip(got, want)):
+                    ctx.violation("unusual-container:array-differs-from-the-scalars", dict(case, array=got, scalars=want, unit=[res.GetUnit(), wu]))
+        for ka, mka in conts[:3]:
+            ctx.ev()
+            n += 1
+            case = {"containers": [ka], "units": [u, v], "op": "GetValues(unit)"}
+            try:
+                got = [float(t) for t in Array(mka(av), u).GetValues(v)]
+                got2 = [float(t) for t in Array(mka(av), u).CreateCopy(unit=v).GetValues()]
+                want = [Scalar(x, u).GetValue(v) for x in av]
+            except Exception as e:
+                ctx.violation("unusual-container:raised:%s" % type(e).__name__, dict(case, error=str(e)[:160]))
+                continue
+            if got != want or got2 != want:
+                ctx.violation("unusual-container:array-differs-from-the-scalars", dict(case, array=got, copy=got2, scalars=want))
+    ctx.count("operations on unusual containers", n)
+
+
 def two_databases(ctx):
     """The same expressions under the shipped table and under another table that gives the same symbols other factors
     (one after the other, both orders, in one process): under each database every container kind gives what the Scalars of
@@ -401,4 +457,6 @@ def run(ctx):
             large_arrays(ctx, T, db)
     if ctx.shard == 0:
         two_databases(ctx)
+        with table.pushed(table.build("posc")):
+            unusual_containers(ctx)
     ctx.inconclusive_if(probe.COUNTS["Array.__add__"] == 0 or probe.COUNTS["Array.__floordiv__"] == 0 or probe.COUNTS["Array.FromScalars"] == 0, "Array operators never reached")
